@@ -7,7 +7,8 @@
 //! (BOM-aware), then buffering via `BufReader`.
 
 use encoding_rs_io::DecodeReaderBytesBuilder;
-use saphyr_parser::BufferedInput;
+use saphyr_parser::input::is_blank_or_breakz;
+use saphyr_parser::{BorrowedInput, BufferedInput, Input};
 use std::cell::RefCell;
 use std::io::{self, BufReader, Error, Read};
 use std::rc::Rc;
@@ -16,6 +17,75 @@ type DynReader<'a> = Box<dyn Read + 'a>;
 type DynBufReader<'a> = BufReader<DynReader<'a>>;
 pub type ReaderInput<'a> = BufferedInput<ChunkedChars<DynBufReader<'a>>>;
 pub type ReaderInputError = Rc<RefCell<Option<Error>>>;
+
+/// [`BufferedInput`] whose `fetch_while_is_yaml_non_space` stops at the end of the input.
+///
+/// `BufferedInput` pads an exhausted stream with `\0`, and the provided implementation of
+/// `fetch_while_is_yaml_non_space` takes `\0` for one more non-space character: a directive
+/// (`%YAML`, `%TAG`, `%anything`) cut off by the end of the input made the scanner append NULs
+/// to the directive name forever. Everything else is delegated unchanged.
+pub struct EofAwareInput<T: Iterator<Item = char>>(pub(crate) BufferedInput<T>);
+
+impl<T: Iterator<Item = char>> Input for EofAwareInput<T> {
+    #[inline]
+    fn lookahead(&mut self, count: usize) {
+        self.0.lookahead(count);
+    }
+    #[inline]
+    fn buflen(&self) -> usize {
+        self.0.buflen()
+    }
+    #[inline]
+    fn bufmaxlen(&self) -> usize {
+        self.0.bufmaxlen()
+    }
+    #[inline]
+    fn raw_read_ch(&mut self) -> char {
+        self.0.raw_read_ch()
+    }
+    #[inline]
+    fn raw_read_non_breakz_ch(&mut self) -> Option<char> {
+        self.0.raw_read_non_breakz_ch()
+    }
+    #[inline]
+    fn skip(&mut self) {
+        self.0.skip();
+    }
+    #[inline]
+    fn skip_n(&mut self, count: usize) {
+        self.0.skip_n(count);
+    }
+    #[inline]
+    fn peek(&self) -> char {
+        self.0.peek()
+    }
+    #[inline]
+    fn peek_nth(&self, n: usize) -> char {
+        self.0.peek_nth(n)
+    }
+
+    fn fetch_while_is_yaml_non_space(&mut self, out: &mut String) -> usize {
+        let mut n_bytes = 0;
+        loop {
+            let c = self.look_ch();
+            // a YAML non-space character that is not the end-of-input padding
+            if is_blank_or_breakz(c) || c == '\u{FEFF}' {
+                return n_bytes;
+            }
+            n_bytes += c.len_utf8();
+            out.push(c);
+            self.skip();
+        }
+    }
+}
+
+/// Like `BufferedInput`, a streaming input has no stable backing storage to borrow from.
+impl<T: Iterator<Item = char>> BorrowedInput<'static> for EofAwareInput<T> {
+    #[inline]
+    fn slice_borrowed(&self, _start: usize, _end: usize) -> Option<&'static str> {
+        None
+    }
+}
 
 pub struct ChunkedChars<R: Read> {
     /// Optional hard cap on total decoded UTF-8 bytes yielded by this iterator.
